@@ -126,3 +126,32 @@ Example C13_reopen_example :
   /\ data_of (fst (do_open s false "U0" "nA" ReOpenExisting)) 1 = Some [("k", "v")]
   /\ is_opened (snd (do_open s false "U0" "nA" CreateNew)) = false.
 Proof. vm_compute. repeat split. Qed.
+
+(* ---- one store per bucket name ---- *)
+
+(* opening a registered name again yields a handle on the very instance that serves the name; two handles on one
+   instance read the same data; a write through one of them is read through all of them *)
+Theorem C13_open_registered_shares : forall s mem url name mode i x, rinv s ->
+  alookup String.eqb name (r_buckets s) = Some i -> get_inst s i = Some x ->
+  String.eqb (i_url x) (the_url mem url) = true -> mode <> CreateNew ->
+  let s' := fst (do_open s mem url name mode) in
+  let h := next_id (r_handles s) in
+  snd (do_open s mem url name mode) = RROpened h
+  /\ get_handle s' h = Some (mkHandle name i false)
+  /\ get_inst s' i = Some x /\ r_disk s' = r_disk s.
+Proof. exact open_registered_shares. Qed.
+Print Assumptions C13_open_registered_shares.
+
+Theorem C13_same_instance_same_data : forall s h1 h2 hd1 hd2,
+  get_handle s h1 = Some hd1 -> get_handle s h2 = Some hd2 -> h_inst hd1 = h_inst hd2 -> data_of s h1 = data_of s h2.
+Proof. exact same_instance_same_data. Qed.
+Print Assumptions C13_same_instance_same_data.
+
+Theorem C13_write_shows_through_every_handle : forall s h k v hd x, get_handle s h = Some hd -> h_closed hd = false ->
+  get_inst s (h_inst hd) = Some x -> i_dbopen x = true -> (i_mem x = false -> alookup String.eqb (i_url x) (r_disk s) <> None) ->
+  let s' := fst (do_write s h k v) in
+  snd (do_write s h k v) = RROk
+  /\ forall h' hd', get_handle s h' = Some hd' -> h_inst hd' = h_inst hd ->
+       match data_of s' h' with Some d => alookup String.eqb k d = Some v | None => False end.
+Proof. exact write_shows_through_the_instance. Qed.
+Print Assumptions C13_write_shows_through_every_handle.
